@@ -232,6 +232,8 @@ def in_attr_mask(toks):
 
 def run_rules(ctx, res):
     FRESH, LIT, BIND, PATH, UNIQ, BOUNDS, EMPTY, CAPS = "R-C05-fresh", "R-C05-literal", "R-C05-binder", "R-C05-path", "R-C05-unique-fns", "R-C05-bounds", "R-C05-emptymatch", "R-C05-caps"
+    DIMS = "R-C05-dims"
+    res.rule(DIMS, "the declared lengths of the emitted action/goto arrays equal the number of rows/items the emitter writes: rows over 0..state_count, items over the table's complete terminal (+1 for end of input) / nonterminal list, through length-preserving adapters only; the table's lists are the full image of the file's lists (MIR)")
     res.rule(FRESH, "every placeholder in a defining position of a module-level item (enum/static/fn/impl, generic parameter) is bound to a result of the fresh-name function or to a user name; the avoid set holds all three user name sources; every fresh name is inserted back")
     res.rule(LIT, "every literal identifier in a template is a keyword, a member after `.`, inside an attribute, a path segment (see R-C05-path), lowercase-initial (user item names are uppercase-initial or letterless: R-C05-caps), a std-prelude name from the fixed allow-list, an associated-item name in binding position, or a literal variant declared inside an internal enum; a capitalised literal in binder position is always a violation")
     res.rule(BIND, "a local binder whose text contains user text must start with a literal lowercase letter (otherwise it can equal a user unit struct and parse as a constant pattern) and end in a position index")
@@ -596,6 +598,17 @@ def run_rules(ctx, res):
     res.inst(CAPS, "capitalisation-validators", "", True, "R-C10-leaf and R-C10-pass: %s" % ("hold" if not bad else bad[0].msg[:100]))
     if bad:
         res.violate(CAPS, "capitalisation-validators", bad[0].where, "lowercase literal names in templates are only safe if user item names cannot be lowercase-initial, but the capitalisation validation fails: " + bad[0].msg[:200])
+
+    # ---- R-C05-dims
+    from .c07 import check_table_cols
+    from .. import dims
+    tmp2 = R2("C07", "quick", "other")
+    cols_ok, note = check_table_cols(mir, tmp2, "R-C07-tables")
+    res.inst(DIMS, "table-lists-complete", "", True, note)
+    for v in tmp2.violations:
+        res.violate(DIMS, v.key, v.where, v.msg + " — the emitted arrays then have fewer columns than their declared length")
+    bad_lists = {v.key.split("|", 1)[1] for v in tmp2.violations if "|" in v.key}
+    dims.run(ctx, syn, efile, fmt, res, DIMS, {"table.terminals": cols_ok or "terminals" not in bad_lists, "table.nonterminals": cols_ok or "nonterminals" not in bad_lists} if note != "no Table aggregate found" else {})
 
 
 def impl_stack_has_trait(toks, i):
